@@ -631,7 +631,7 @@ func c01jobs(tier string, strict bool) []Job {
 		pairs = append(pairs, x+","+x+"@tail", x+","+x+"@base")
 	}
 	if tier == "thorough" {
-		for _, x := range []string{"distinct", "sort", "filter_or", "aggregate", "apply_const", "copy", "rownums", "eval"} {
+		for _, x := range []string{"sort", "apply_const"} {
 			pairs = append(pairs, x+","+x+"@tail", x+","+x+"@base")
 		}
 		for _, a := range []string{"slice", "sort", "filter", "slice_tail", "copy", "apply_fn1"} {
